@@ -224,6 +224,12 @@ class Pure:
             if e.id in self.module_consts:
                 return self.module_consts[e.id]
             if self.module is not None:
+                # floor / ceil imported by name from math (possibly under an alias)
+                for imp in self.module.body:
+                    if isinstance(imp, ast.ImportFrom) and imp.module == "math":
+                        for al in imp.names:
+                            if (al.asname or al.name) == e.id and al.name in ("floor", "ceil"):
+                                return V("py_" + al.name, "round_fn")
                 # a module-level constant: numbers are inlined, anything else can only be message text
                 defs = [n for n in self.module.body if isinstance(n, ast.Assign) and len(n.targets) == 1
                         and isinstance(n.targets[0], ast.Name) and n.targets[0].id == e.id]
@@ -231,6 +237,8 @@ class Pure:
                     val = defs[0].value
                     if isinstance(val, ast.Constant) and isinstance(val.value, (int, float)) and not isinstance(val.value, bool):
                         return self.expr(val, {}, binds)
+                    if (isinstance(val, ast.Constant) and isinstance(val.value, bytes) and val.value == b"") or ast.unparse(val) == "bytes()":
+                        return V("[]", "bytes")
                     if isinstance(val, (ast.Constant, ast.JoinedStr, ast.Call, ast.BinOp)) and not (isinstance(val, ast.Constant) and not isinstance(val.value, str)):
                         return V('""', "str")
             bad(e, "unknown name %s" % e.id)
@@ -255,8 +263,8 @@ class Pure:
                     return env[e.value.id + "." + e.attr]
                 if e.attr == "step":
                     return NONE
-            if isinstance(e.value, ast.Name) and e.value.id == "math" and e.attr in ("floor", "ceil"):
-                return V("py_" + e.attr, "round_fn")
+            if isinstance(e.value, ast.Name) and e.value.id.lstrip("_") == "math" and e.attr in ("floor", "ceil"):
+                return V("py_" + e.attr, "round_fn")        # math.floor under whatever name the math module was imported
             bad(e, "unsupported attribute access")
         if isinstance(e, ast.UnaryOp):
             x = self.expr(e.operand, env, binds)
@@ -460,7 +468,7 @@ class Pure:
             if a.ty != "F":
                 bad(e, "rounding function applied to %s" % a.ty)
             return self.partial(env[name].text, a, binds, "rounded")
-        if isinstance(f, ast.Attribute) and isinstance(f.value, ast.Name) and f.value.id == "math" and f.attr in ("floor", "ceil") and len(e.args) == 1:
+        if isinstance(f, ast.Attribute) and isinstance(f.value, ast.Name) and f.value.id.lstrip("_") == "math" and f.attr in ("floor", "ceil") and len(e.args) == 1:
             a = self.expr(e.args[0], env, binds)
             if a.ty == "Z":
                 return a
